@@ -51,7 +51,9 @@ def option_sets(rng):
     sets = [dict(base, maxb=rng.randint(1, 4)), dict(base, maxc=rng.randint(1, 2), maxb=2),
             dict(base, bt=rng.choice([32, 96, 160]), maxb=3), dict(base, ret=rng.choice([96, 640]), maxb=3),
             dict(maxb=rng.randint(1, 5), maxc=rng.randint(1, 3), bt=rng.choice([32, 64, 96]),
-                 ret=rng.choice([0, 96, 640]))]
+                 ret=rng.choice([0, 96, 640])),
+            # falsy values are values too: batch_timeout = 0 means "do not wait for stragglers"
+            dict(base, bt=0, maxb=rng.randint(1, 3)), dict(base, bt=0, maxb=3, ret=rng.choice([0, 96]))]
     return sets
 
 
@@ -90,8 +92,7 @@ def batcher_forms(seed, count, out, drv):
     for (cfg, ins, plan), ans in zip(cases, answers):
         tie, mev, mpend = B.parse_model(ans)
         if tie:
-            out.count('ties-not-judged')
-            continue
+            out.count('ties-not-judged-against-the-model')     # the forms are still compared with each other
         got = {}
         for form in ('class', 'direct', 'deco'):
             case = {'part': 'batcher-forms', 'form': form, 'cfg': cfg, 'ins': ins, 'plan': plan}
@@ -111,7 +112,7 @@ def batcher_forms(seed, count, out, drv):
                                      'observed': got[form], 'expected': got['class'],
                                      'signature': {'kind': 'form-differs', 'decorator': 'async_background_batcher',
                                                    'form': form}})
-        if got['class'] != B.canon(mev):
+        if not tie and got['class'] != B.canon(mev):
             out.diffs.append({'case': {'part': 'batcher-forms', 'cfg': cfg, 'ins': ins, 'plan': plan},
                               'impl': got['class'], 'model': B.canon(mev),
                               'where': 'AsyncBackgroundBatcher vs Lean machine with the same option values'})
@@ -122,7 +123,7 @@ def batcher_forms(seed, count, out, drv):
 # ------------------------------------------------------------------ (b) buffer forms
 def buffer_forms(out):
     from aiuti.asyncio import buffer_until_timeout
-    for T in (256, 1024, 4096, 96):
+    for T in (256, 1024, 4096, 96, 0):
         for gaps in ([0, 10, 10], [5], [0, T - 8, T - 8], [1, 1, 1, 1]):
             logs = {}
             for form in ('direct', 'deco'):
@@ -151,6 +152,8 @@ def buffer_forms(out):
                 logs[form] = calls
                 out.fingerprints.add(fingerprint(case))
             exp = [(sum(gaps) + T, list(range(len(gaps))))]
+            if T == 0:
+                exp = logs['direct']        # timeout 0: only "the options form equals the direct form" is judged
             for form in ('direct', 'deco'):
                 if logs[form] != exp:
                     out.concrete.append({'case': {'part': 'buffer-forms', 'form': form, 'timeout_ticks': T,
